@@ -116,6 +116,10 @@ def run(model: RepoModel, rep, tier: str):
     rep.rule("C13.R3", "descent cut-offs dominate frame creation: a callee is scheduled only through the negation of the recursion / "
                        "repeated-path / per-call-site-budget tests, and the budget is consumed on the way", min_instances=4)
     rep.rule("C13.R4", "worklists of the taint phase grow only behind a visited / growth test", min_instances=3)
+    rep.rule("C13.R5", "self-feeding work-lists: a while loop that pops from a work-list and adds to the same work-list remembers what it has "
+                       "already processed (a set that is membership-tested and grown inside the loop), or is one of the loops read and frozen "
+                       "with the reason why it is finite", min_instances=8)
+    _r5_self_feeding_worklists(model, rep)
 
     # functions something in the pipeline can reach (by-name over-approximation: a function is reachable when a reachable
     # function mentions its name; roots: main.py, event registration, handler tables)
@@ -492,6 +496,60 @@ def _fn_rel(node, f) -> int:
     return node.lineno - f.node.lineno
 
 
+SELF_FEEDING_OK = {
+    ("basics/scope_hierarchy.py", "UnitScopeHierarchyAnalysis.summarize_symbol_decls"):
+        "walks parent links of the scope forest; scopes whose closure is complete are recorded in visited_set after each outer iteration",
+    ("core/global_semantics.py", "P3GlobalSemanticAnalysis.analyze_frame_stack"):
+        "the frame stack grows only through the descent cut-offs decided in R3 (recursion, repeated path, per-call-site budget)",
+    ("events/default_event_handlers/add_var_decl.py", "adjust_variable_decls"):
+        "walks the finite tree of statement lists: every pushed frame is a list nested inside the statement being visited",
+}
+
+
+def _r5_self_feeding_worklists(model: RepoModel, rep):
+    n = 0
+    for rel, mod in sorted(model.modules.items()):
+        if rel.startswith("lang/"):
+            continue
+        for f in mod.all_funcs():
+            seen_loops = set()
+            for L in walk_no_nested(f.node):
+                if not isinstance(L, ast.While):
+                    continue
+                pops = [c for c in ast.walk(L) if isinstance(c, ast.Call) and isinstance(c.func, ast.Attribute) and c.func.attr in ("pop", "popleft")
+                        and isinstance(c.func.value, ast.Name)]
+                for p in pops:
+                    wl = p.func.value.id
+                    adds = [c for c in ast.walk(L) if isinstance(c, ast.Call) and isinstance(c.func, ast.Attribute)
+                            and c.func.attr in ("add", "append", "extend", "fast_add", "insert_to_first", "appendleft")
+                            and isinstance(c.func.value, ast.Name) and c.func.value.id == wl]
+                    if not adds or (id(L), wl) in seen_loops:
+                        continue
+                    seen_loops.add((id(L), wl))
+                    n += 1
+                    tested = {norm(c.comparators[0]) for c in ast.walk(L) if isinstance(c, ast.Compare) and isinstance(c.ops[0], (ast.In, ast.NotIn))}
+                    grown = {norm(c.func.value) for c in ast.walk(L) if isinstance(c, ast.Call) and isinstance(c.func, ast.Attribute)
+                             and c.func.attr in ("add", "update")} - {wl}
+                    visited = sorted(tested & grown)
+                    key = f"{rel}::{f.qualname}::work-list `{wl}` (while loop #{_loop_ordinal(f, L)})"
+                    if visited:
+                        rep.holds("C13.R5", key, rel, L.lineno, f"processed elements are remembered in {visited}")
+                    elif (rel, f.qualname) in SELF_FEEDING_OK:
+                        rep.info("C13.R5", key, rel, L.lineno, "adjudicated: " + SELF_FEEDING_OK[(rel, f.qualname)])
+                    else:
+                        rep.violation("C13.R5", key, rel, L.lineno,
+                                      f"{f.qualname} pops from `{wl}` and adds to it inside the same loop without remembering what it has already "
+                                      f"processed (no set is both membership-tested and grown in the loop; SimpleWorkList only de-duplicates what "
+                                      f"is queued at the moment, pop() forgets the element): on a cyclic structure -- objects linked in a ring -- "
+                                      f"the loop never ends")
+    rep.analysed["self-feeding work-list loops"] = n
+
+
+def _loop_ordinal(f: Func, L) -> int:
+    loops = sorted((x.lineno for x in walk_no_nested(f.node) if isinstance(x, ast.While)))
+    return loops.index(L.lineno) + 1
+
+
 # ---------------------------------------------------------------- self-test mutants
 def _t(old, new):
     return lambda src: __import__("sa.mutate", fromlist=["x"]).text_replace(src, old, new)
@@ -509,6 +567,10 @@ def _m(kind, rel_cls, func, pred, new=None, nth=0):
 
 
 MUTANTS = [
+    ("summary-walk-without-visited-set", "core/stmt_states.py",
+     lambda src: _t("            if current_state_index in state_visited or current_state_index < 0:\n                continue\n            state_visited.add(current_state_index)\n",
+                    "            if current_state_index < 0:\n                continue\n")(src),
+     "apply_callee_semantic_summary::work-list `work_list`"),
     ("counter-or-empty", "common_structs.py", _t("        self.call_site_analyze_counter = call_site_analyze_counter\n", "        self.call_site_analyze_counter = call_site_analyze_counter or {}\n"),
      "kept by reference"),
     ("failed-init-not-recorded", PS, _t("                if self.init_compute_frame(frame, frame_stack) is None:\n                    self.analyzed_method_list.add(frame.method_id)\n",
